@@ -20,6 +20,7 @@
 
 #include <assert.h>
 #include <errno.h>
+#include <limits.h>
 #include <stdbool.h>
 #include <stdio.h>
 #include <stdlib.h>
@@ -389,6 +390,11 @@ static int resize_common(const char *function, vnadata_t *vdp,
     if (frequencies < 0) {
 	_vnadata_error(vdip, VNAERR_USAGE,
 	    "%s: frequencies cannot be negative: %d", function, frequencies);
+	return -1;
+    }
+    if (rows != 0 && columns > INT_MAX / rows) {
+	_vnadata_error(vdip, VNAERR_USAGE,
+	    "%s: a %d x %d matrix is too large", function, rows, columns);
 	return -1;
     }
     if (validate_type(function, vdip, type, rows, columns) == -1) {
